@@ -774,15 +774,23 @@ def fam_api(chk, da, R, tier):
         with warnings.catch_warnings(), AutoRecorder() as rec2:
             warnings.simplefilter("ignore")
             try:
-                got2 = R.Rechunk(x.expr, spec, kw.get("threshold"), bsl, balance, kw.get("method")).chunks
+                with time_limit(5):
+                    got2 = R.Rechunk(x.expr, spec, kw.get("threshold"), bsl, balance, kw.get("method")).chunks
                 err2 = None
+            except Hang:
+                # x.rechunk(spec) returned but the expression's own chunk rule does not: the two disagree (reported just below)
+                got2, err2 = None, "hangs"
+                chk.count("api:Rechunk.chunks-hangs")
             except Exception as e:  # noqa: BLE001
                 got2, err2 = None, err_class(e)
         # independent expectation
         with warnings.catch_warnings():
             warnings.simplefilter("ignore")
             try:
-                want, werr = independent_chunks(spec, shape, old, dtype, bsl), None
+                with time_limit(5):
+                    want, werr = independent_chunks(spec, shape, old, dtype, bsl), None
+            except Hang:
+                want, werr = None, "hangs"
             except Exception as e:  # noqa: BLE001
                 want, werr = None, err_class(e)
         kind = "dict" if isinstance(spec, dict) else "seq" if isinstance(spec, (tuple, list)) else "scalar"
@@ -842,9 +850,10 @@ def fam_api(chk, da, R, tier):
             with warnings.catch_warnings():
                 warnings.simplefilter("ignore")
                 try:
-                    pre = R.Rechunk(x.expr, spec, None, bsl, False, None).chunks
+                    with time_limit(5):
+                        pre = R.Rechunk(x.expr, spec, None, bsl, False, None).chunks
                     medians = [int(np.median(c).astype(int)) for c in pre]
-                except Exception:  # noqa: BLE001
+                except (Exception, Hang):  # noqa: BLE001
                     medians = []
         cases.append(ctuple(ao, clist(medians), cchunks(old), uspec, copt(bsl), cbool(balance),
                             "(Ok " + cchunks(got) + ")" if err is None else "(Err EValue)"))
@@ -883,6 +892,21 @@ def fam_programs(chk, da, tier):
         if done > n:
             break
         run_program(chk, da, dask, _materialize, prog, sources, want)
+    # masked ufunc calls (where= / out= operands are rechunked along with the data operands when a rechunk is pushed through the
+    # elemwise), under the default and the 'refine' unification policy (under 'refine' nobody realigns a stale operand afterwards)
+    import random as _random
+    rng2 = _random.Random(f"C14-where-out-{chk.seed}")
+    done = 0
+    for prog, sources, want in progs.gen_programs(rng2, n * 6, depth_choices=(2, 3, 4), ops=["where_out", "where_out", "elem2", "scalar", "T", "slice", "rechunk", "rechunk", "rechunk"], max_dim=6):
+        nodes = progs.all_nodes(prog)
+        if not any(q[0] == "rechunk" and q[1][0] == "where_out" for q in nodes):
+            continue
+        done += 1
+        if done > n // 2:
+            break
+        chk.count("prog-family:rechunk-over-masked-ufunc")
+        with dask.config.set({"array.unify-chunks-policy": "refine"} if done % 2 else {}):
+            run_program(chk, da, dask, _materialize, prog, sources, want)
 
 
 def prog_signature(prog, q, cls, extra=None):
